@@ -74,8 +74,18 @@ def run(ctx):
         c = W.make_case(rng, family=(n, e, fam), workers=0)
         c.update(latUs=[0] * n)
         cases.append(c)
+    for k in (63, 64, 65, 127, 128, 129, 255, 256, 257):
+        for fam_f in (W.g_fanout, W.g_fanin):
+            n, e, fam = fam_f(k)
+            c = W.make_case(rng, family=(n, e, fam), workers=0)
+            c.update(latUs=[0] * n, unsel=[])
+            cases.append(c)
+    cases.append(dict(W.make_case(rng, family=(1, [], "single"), workers=0, fail_fast=False), fail=[], unsel=[]))
+    cases.append(dict(W.make_case(rng, family=(1, [], "single"), workers=0, fail_fast=True), fail=[0], unsel=[]))
+    cases.append(dict(W.make_case(rng, family=(3, [[0, 1], [1, 2]], "nothing-selected"), workers=0, fail_fast=False), fail=[], unsel=[0, 1, 2]))
     cases += small_exhaustive(rng)
-    nrand = 120 if quick else 2500
+    cases += small_exhaustive(rng)      # the same inputs again: other schedules
+    nrand = 300 if quick else 4000
     for i in range(nrand):
         cases.append(W.make_case(rng, maxn=400 if i % 6 == 0 else 50, workers=0, cancel=(i % 5 == 0)))
     ctx.coverage["rule"] = (f"{len(cases)} cases: zero-latency fan-out/bipartite up to {max(big)+1} nodes, all failing subsets x fail-fast on two 4-node graphs, "
